@@ -86,7 +86,7 @@ func call(o op) int {
 	case 18:
 		return lib.CondQueue(o.arg)
 	case 19:
-		return lib.SpinHandoff(o.arg)
+		return lib.SpinHandoff(o.arg) + lib.Idioms(o.arg%5+1) - 8*(o.arg%5+1)
 	// defective
 	case 20:
 		return lib.RacyCounter()
@@ -106,6 +106,8 @@ func call(o op) int {
 		return lib.ExpiringSquare(o.arg)
 	case 28:
 		return lib.CondIfNotFor(o.arg)
+	case 29:
+		return lib.AtomicRMW(o.arg)
 	}
 	panic("bad fn")
 }
@@ -150,6 +152,8 @@ func want(fn, arg int) int {
 		return arg * 3
 	case 28:
 		return 2 * arg
+	case 29:
+		return 1
 	case 27:
 		return arg * arg
 	case 26:
